@@ -74,9 +74,9 @@ def step (s : St) (line : String) : St × String :=
     | _, _ => (s, "bad-op")
   | ["m.drops", sid] => match sid.toNat? with
     | some sid =>
+      -- `Drop for MpscSender` (fixes/D39.patch): the last handle closes the channel and wakes the receiver
       let (m, r) := s.m.step (.dropSender sid)
-      -- no Drop impl: the ownership step has no critical section and wakes nobody
-      ({ s with m := m }, match r with | .unit => "dropped wake=-" | r => outS "" true r)
+      ({ s with m := m }, outS "dropped" true r)
     | none => (s, "bad-op")
   | ["m.poll", w] => match w.toNat? with
     | some w => let (m, r) := s.m.step (.poll w); ({ s with m := m }, outS "" true r)
